@@ -306,7 +306,8 @@ SnapshotTake ==
           /\ hmax' = LET h == now - (EffExp(srv.cexp) + Grace) IN IF h > hmax THEN h ELSE hmax
     /\ cnt' = [cnt EXCEPT !.snap = @ + 1]
     /\ UNCHANGED <<log, mod, applied, srv, snaps, up, now>>
-    /\ hist' = Append(hist, H("SnapshotTake", 0, NoE))
+    \* i = 1 records that this snapshot folded every stored entry (used to select replays)
+    /\ hist' = Append(hist, H("SnapshotTake", IF \A j \in store : ~Young(j) THEN 1 ELSE 0, NoE))
 
 \* Persist: state message + the entries found in the irclog in [first, last] NOW
 PersistOK ==
